@@ -556,8 +556,14 @@ func c09Run(c *verifeng.Chooser, f *c09fix, depth int) {
 		inflight = keep
 	}
 
+	// the order inside a burst as a further dimension (DESIGN 3.7)
+	var burst *verifbubble.Burst
+	if vfxInBurst {
+		burst = verifbubble.NewBurst(c)
+	}
 	for d := 0; d < depth && !c.Failed(); d++ {
 		verifbubble.Wait()
+		burst.End()
 		if sig, detail := verifbubble.LockOrder(); sig != "" {
 			c.Fail("C09", "lock-order-inversion:"+sig, "%s", detail)
 			return
@@ -623,7 +629,7 @@ func c09Run(c *verifeng.Chooser, f *c09fix, depth int) {
 			upd("Rewind to 1", func(r *c09ref) {}, Rewind(1))
 		}
 		e := menu[c.ChooseFree(len(menu), "event")]
-		c.Step("%s", e.name)
+		c.Step("%s%s", e.name, burst.Begin())
 		if !e.run() {
 			return
 		}
@@ -631,6 +637,9 @@ func c09Run(c *verifeng.Chooser, f *c09fix, depth int) {
 	if c.Failed() {
 		return
 	}
+	verifbubble.Wait()
+	burst.End()
+	burst.Off()
 	// ---- wind down: no more failures or parked queries, let retries fire;
 	// the rescan must arrive at the tip of the best chain.
 	verifbubble.Wait()
@@ -713,6 +722,7 @@ func TestVFXC09(t *testing.T) {
 			t.Fatal(err)
 		}
 		fmt.Sscanf(v.Config, "depth=%d", &depth)
+		vfxInBurst = strings.Contains(v.Config, "in-burst")
 		e := verifeng.FromEnv(v.Harness, v.Config)
 		_, x, err := e.ReplayFile(rp, c09Body(t, depth))
 		if err != nil {
@@ -729,6 +739,17 @@ func TestVFXC09(t *testing.T) {
 	e.ShardDepth = 3
 	e.MaxViol = 12
 	e.Run(c09Body(t, depth))
+	if err := verifeng.AppendResult(&e.Res); err != nil {
+		t.Fatal(err)
+	}
+	// second configuration: at most one in-burst deviation per execution
+	vfxInBurst = true
+	e = verifeng.FromEnv("C09-rescan", fmt.Sprintf("depth=%d main=5 fork=4 in-burst deviations<=1", depth-2))
+	e.ShardDepth = 3
+	e.MaxViol = 12
+	e.MaxDev = 1
+	e.Run(c09Body(t, depth-2))
+	vfxInBurst = false
 	if err := verifeng.AppendResult(&e.Res); err != nil {
 		t.Fatal(err)
 	}
